@@ -32,7 +32,14 @@ def run_config(run, exe, name, conf, invariants, env=None, workers=4, cap_tours=
     """returns dict(info, res, tours, g).  TLC verdict handling is left to the caller."""
     c = dict(consts())
     tla, cfg = muconf.write_mc(MC, name, conf, c, invariants)
-    g, info = tlcgraph.run_tlc_graph(tla, cfg, workers=workers, cwd=MC, timeout=timeout, simulate=simulate, sim_seed=seed())
+    budget = int(os.environ.get("VERIF_BFS_BUDGET", "1500"))
+    g, info = tlcgraph.run_tlc_graph(tla, cfg, workers=workers, cwd=MC, timeout=timeout if simulate else min(timeout, budget), simulate=simulate, sim_seed=seed())
+    if not simulate and info.get("rc") == 124:
+        # breadth-first search did not finish within its budget (large configuration, or a loaded machine): fall back to behaviours from
+        # TLC's simulation mode for this configuration, recorded as such in the evidence
+        run.note("configuration %s: breadth-first search exceeded %d s (%d distinct states so far); using simulation-mode behaviours instead" % (name, budget, info.get("distinct", 0)))
+        run.cov.setdefault("bfs_fallback_to_simulation", []).append(name)
+        g, info = tlcgraph.run_tlc_graph(tla, cfg, workers=workers, cwd=MC, timeout=timeout, simulate=(150, 800), sim_seed=seed())
     out = {"info": info, "g": g, "res": None, "tours": 0, "steps": 0}
     if not info["ok"] and not info["violated"]:
         raise ToolFailure("TLC failed on %s: %s" % (name, "\n".join(info["log"][-40:])))
